@@ -118,12 +118,22 @@ func RunIsolated(scn string, input interface{}, limit time.Duration, memLimitMB 
 	go func() { done <- cmd.Wait() }()
 	var err error
 	timedOut := false
-	select {
-	case err = <-done:
-	case <-time.After(limit):
-		cmd.Process.Kill()
-		err = <-done
-		timedOut = true
+	deadline := time.After(limit)
+	tick := time.NewTicker(time.Second)
+	defer tick.Stop()
+wait:
+	for {
+		select {
+		case err = <-done:
+			break wait
+		case <-tick.C:
+			Progress(nil) // the worker is alive, it is the child that takes its time
+		case <-deadline:
+			cmd.Process.Kill()
+			err = <-done
+			timedOut = true
+			break wait
+		}
 	}
 	res := IsolatedResult{}
 	if ru, ok := cmd.ProcessState.SysUsage().(*syscall.Rusage); ok && ru != nil {
